@@ -653,6 +653,27 @@ def _dualquat(run):
     else:
         run.violation(RULE, cn.f.key, 'norm terms', 'dual-quaternion norm terms are %s; the definition requires %s and %s'
                       % ('; '.join(str(g) for g in got), wa, wb), f=cn.f)
+    # the norm is the dual-number square root of a + eps b:  sqrt(a) + eps b / (2 sqrt(a))
+    r = _single_return_value(cn)
+    if r is None:
+        run.error('R16: DualQuaternion.norm: expected a single return')
+    else:
+        e = canon(cn.fi, r.value, inline=False)
+        nmr = Normaliser()
+        if isinstance(e, ast.Tuple) and len(e.elts) == 2:
+            re_ok = nmr.poly(e.elts[0]) == nmr.poly(parse_expr('sqrt(a.s)'))
+            du = nmr.poly(e.elts[1])
+            du_ok = du == nmr.poly(parse_expr('b.s / (2 * sqrt(a.s))'))
+            (run.holds if re_ok else run.violation)(RULE, cn.f.key, 'norm: real part', 'sqrt(a)' if re_ok else 'real part of the norm is %s, not sqrt(a.s)' % src(e.elts[0], 30), f=cn.f, node=r)
+            if du_ok:
+                run.holds(RULE, cn.f.key, 'norm: dual part', 'b / (2 sqrt(a)): dual-number square root', f=cn.f, node=r)
+            elif du == nmr.poly(parse_expr('sqrt(b.s)')):
+                run.violation(RULE, cn.f.key, 'norm: dual part', 'the dual part is sqrt(b); the square root of the dual number a + eps b is sqrt(a) + eps b/(2 sqrt(a)). '
+                              'For a unit dual quaternion b is 0 up to rounding, so sqrt(b) raises a math domain error whenever the rounding error is negative', f=cn.f, node=r)
+            else:
+                run.error('R16: DualQuaternion.norm: dual part %s has an unrecognised form' % src(e.elts[1], 40))
+        else:
+            run.error('R16: DualQuaternion.norm does not return a 2-tuple')
 
 
 # --------------------------------------------------------------------------- routing (R15 / R13)
@@ -1540,14 +1561,20 @@ def tables_c20(run):
         e = canon(cr.fi, r.value, inline=True)
         m = any(fc[1] and matches('isinstance(right, SpatialM6)', fc[2].ast) is not None for fc in fs)
         nf = any((not fc[1]) and matches('isinstance(right, SpatialM6)', fc[2].ast) is not None for fc in fs)
+        PM = ('right.__class__(left.Ad() @ right.A)', 'right.__class__([left.Ad() @ x for x in right.data])')
+        PF = ('right.__class__(left.Ad().T @ right.A)', 'right.__class__([left.Ad().T @ x for x in right.data])')
         if m:
-            okm = matches('right.__class__(left.Ad() @ right.A)', e) is not None
-            if not okm:
-                run.violation(RULE, cr.f.key, 'motion transform', 'motion vectors must be mapped by Ad @ v; found %s' % src(r.value, 60), f=cr.f, node=r)
+            okm = any(matches(p_, e) is not None for p_ in PM)
+            if not okm and any(matches(p_, e) is not None for p_ in PF):
+                run.violation(RULE, cr.f.key, 'motion transform', 'motion vectors must be mapped by Ad @ v; found the force form %s' % src(r.value, 60), f=cr.f, node=r)
+            elif not okm:
+                run.error('R16: SpatialVector.__rmul__: motion branch returns an unrecognised form %s' % src(r.value, 60))
         elif nf:
-            okf = matches('right.__class__(left.Ad().T @ right.A)', e) is not None
-            if not okf:
-                run.violation(RULE, cr.f.key, 'force transform', 'force vectors must be mapped by Ad^T @ f; found %s' % src(r.value, 60), f=cr.f, node=r)
+            okf = any(matches(p_, e) is not None for p_ in PF)
+            if not okf and any(matches(p_, e) is not None for p_ in PM):
+                run.violation(RULE, cr.f.key, 'force transform', 'force vectors must be mapped by Ad^T @ f; found the motion form %s' % src(r.value, 60), f=cr.f, node=r)
+            elif not okf:
+                run.error('R16: SpatialVector.__rmul__: force branch returns an unrecognised form %s' % src(r.value, 60))
     if okm:
         run.holds(RULE, cr.f.key, 'motion transform', 'Ad @ v for SpatialM6', f=cr.f)
     if okf:
@@ -1578,6 +1605,9 @@ def tables_c20(run):
     check_routes(run, [
         ('spatialvector:SpatialInertia.__add__', 'inertias add', ['SpatialInertia(left.A + right.A)'], 'return'),
         ('spatialvector:SpatialVelocity.__matmul__', '@ is the cross product', ['self.cross(other)'], 'return'),
+        ('spatialvector:SpatialInertia.__mul__', 'inertia times acceleration is a force', ['SpatialForce(left.binop(right, lambda x, y: x @ y))', 'SpatialForce(left.A @ right.A)'], 'any'),
+        ('spatialvector:SpatialInertia.__mul__', 'inertia times velocity is a momentum', ['SpatialMomentum(left.binop(right, lambda x, y: x @ y))', 'SpatialMomentum(left.A @ right.A)'], 'any'),
+        ('spatialvector:SpatialInertia.__rmul__', 'vector * inertia is inertia * vector', ['self.__mul__(left)'], 'return'),
     ], rule=RULE)
     # typed guards of + and -
     for key, opn in (('spatialvector:SpatialVector.__add__', '+'), ('spatialvector:SpatialVector.__sub__', '-')):
